@@ -305,7 +305,8 @@ HANG_S = 6
 def c14_enum(binary, depth):
     """Thorough-tier supplement for C14: every op sequence of the given depth over {LOOP, ADV 1, ADV 400, ADVDL -1/0/+1,
     SET} x every outcome combination of the first three requests {valid at once, valid after 400 ms, invalid, lost}
-    x 4 period configurations x {distinct, same, no} reference arrangement, each followed by the fault-free drain."""
+    x 4 period configurations x {distinct, same, no} reference arrangement x {probe=1, probe=0}, each followed by the
+    fault-free drain."""
     import subprocess
     import re as _re
     from concurrent.futures import ThreadPoolExecutor
@@ -336,7 +337,7 @@ def c14_enum(binary, depth):
     return ({'depth': depth, 'traces_executed': traces,
              'alphabet': ['LOOP', 'ADV 1', 'ADV 400', 'ADVDL -1', 'ADVDL 0', 'ADVDL 1', 'SET'],
              'request_outcomes': 'first three requests x {valid at once, valid after 400 ms, invalid after 400 ms, lost}',
-             'configurations': '4 (sync, initial, time-out) x {distinct, same, none}', 'exhaustive': viol is None,
+             'configurations': '4 (sync, initial, time-out) x {distinct, same, none} x {primary probed around loop(), not probed}', 'exhaustive': viol is None,
              'wall_s': round(time.time() - t0, 1)}, viol)
 
 
